@@ -100,6 +100,7 @@ class VStr(V):
 @dataclass
 class VTuple(V):
     items: List[V]
+    names: Optional[List[str]] = None  # field names when the tuple is a NamedTuple instance
     kind = "tuple"
 
 
@@ -724,6 +725,10 @@ class Interp:
                     ctx.assume(dyn_range_constraint(ctx, ctx.memo[key]))
                 return ctx.memo[key]
             raise PyRaise("AttributeError", [VStr(smt.sstr(f"no attribute '{name}'"))])
+        if isinstance(v, VTuple) and v.names is not None and name in v.names:
+            return v.items[v.names.index(name)]
+        if isinstance(v, VTuple) and v.names is not None and name.startswith("_"):
+            raise Unsupported(f"NamedTuple.{name}")
         if isinstance(v, (VNone, VBool, VInt, VFloat, VStr, VTuple, VList, VNotImpl)):
             real = {"none": type(None), "bool": bool, "int": int, "float": float, "str": str, "tuple": tuple, "list": list, "notimpl": type(NotImplemented)}[v.kind]
             if hasattr(real, name):
